@@ -490,7 +490,7 @@ def limited(fn, seconds=10):
     signal.signal(signal.SIGALRM, old)
 
 
-def limited2(fn, seconds=10, confirm=90):
+def limited2(fn, seconds=10, confirm=40):
   """For an fn that builds its own fresh engine: a timeout is only reported when a second run with a much longer
   limit times out as well (the machine is shared; a single slow run is not non-termination)."""
   try:
